@@ -74,6 +74,8 @@ pub struct SegReader {
     fail_at: Option<usize>,
     /// start again from the first segment length when the list is exhausted (large inputs)
     pub cycle: bool,
+    /// the OS error the read fault is reported with (EIO, EISDIR …); default: a custom `ErrorKind::Other`
+    pub errno: Option<i32>,
 }
 
 impl SegReader {
@@ -86,6 +88,7 @@ impl SegReader {
             seg_end: 0,
             fail_at,
             cycle: false,
+            errno: None,
         }
     }
 }
@@ -107,7 +110,10 @@ impl BufRead for SegReader {
             // refill
             if self.pos >= limit {
                 if self.fail_at.is_some() {
-                    return Err(io::Error::new(io::ErrorKind::Other, "injected read fault"));
+                    return Err(match self.errno {
+                        Some(e) => io::Error::from_raw_os_error(e),
+                        None => io::Error::new(io::ErrorKind::Other, "injected read fault"),
+                    });
                 }
                 return Ok(&[]);
             }
@@ -137,6 +143,8 @@ pub struct FaultWriter {
     pub limit: Option<usize>,
     /// accept at most this many bytes per `write` call (short writes)
     pub short: Option<usize>,
+    /// the OS error the fault is reported with (EPIPE, ENOSPC, EIO, EFBIG …); default: a custom `ErrorKind::Other`
+    pub errno: Option<i32>,
 }
 
 impl Write for FaultWriter {
@@ -153,7 +161,10 @@ impl Write for FaultWriter {
             Some(k) => {
                 let avail = k.saturating_sub(self.buf.len());
                 if avail == 0 && !b.is_empty() {
-                    return Err(io::Error::new(io::ErrorKind::Other, "injected write fault"));
+                    return Err(match self.errno {
+                        Some(e) => io::Error::from_raw_os_error(e),
+                        None => io::Error::new(io::ErrorKind::Other, "injected write fault"),
+                    });
                 }
                 let n = avail.min(b.len());
                 self.buf.extend_from_slice(&b[..n]);
@@ -366,10 +377,12 @@ fn run_cut(kv: &Kv) -> String {
     let input = opt_bytes(kv, "in").unwrap_or_default();
     let mut reader = SegReader::new(input.clone(), parse_segs(kv), opt_usize(kv, "rf"));
     reader.cycle = kv.get("cyc").is_some();
+    reader.errno = kv.get("rfe").and_then(|v| v.parse().ok());
     let mut writer = FaultWriter {
         buf: Vec::new(),
         limit: opt_usize(kv, "wf"),
         short: opt_usize(kv, "sw"),
+        errno: kv.get("wfe").and_then(|v| v.parse().ok()),
     };
     let eng = kv.get("eng").copied().unwrap_or("str");
     let res = catch_unwind(AssertUnwindSafe(|| -> Result<Result<(), String>, &'static str> {
